@@ -6,29 +6,46 @@ GEN = ["WriteSets"]
 HARNESS_FLAGS = ["-fno-access-control"]
 RULE = "see stats"
 PARTIAL = [
-    "the real stages are tied to the export model by behaviour only: (a) the three export functions are driven "
-    "directly with arbitrary vectors and (b) without callback the result of Circuit::placeGlobal/legalize/placeDetailed "
-    "equals the model export of the vectors of a twin run of the algorithm object; that a stage performs nothing but such "
-    "exports rests on the translated write table (writes_table_closed: AST pattern, src/place_global + src/place_detailed "
-    "only) — writes through aliases the pattern does not understand are rejected by the translator, not proved absent "
-    "in other directories (src/coloquinte.cpp's own wrappers are three lines and set only isInUse_)",
-    "the float/double arithmetic of GlobalPlacer::exportPlacement is modelled exactly over Rat; stage-level cases "
-    "where the double subtraction is inexact are skipped from the correspondence (counted as twin_G_inexact), never from the oracle",
+    "the real stages are tied to the export model by behaviour: (a) the export functions (the three loops and "
+    "GlobalPlacer::exportPlacement(circuit) with its binary32 blend) are driven directly with arbitrary vectors and weights and "
+    "(b) for valid parameters, with no / an observing / a throwing callback, the circuit seen at every callback invocation and "
+    "the final circuit of Circuit::placeGlobal/legalize/placeDetailed equal the model's exports of the vectors a twin run of the "
+    "algorithm object exposes (the float vectors handed to GlobalPlacer::callback are read from the twin's private members: LB at "
+    "LowerBound steps, UB otherwise — a wrong reading shows up as a correspondence difference); that a stage performs nothing but "
+    "such exports rests on the translated write table: writes_table_closed covers every function of src/place_global and "
+    "src/place_detailed and every overload of Circuit::place/placeGlobal/legalize/placeDetailed, with all hand-overs of a "
+    "non-const Circuit staying inside that set and no const_cast/reinterpret_cast/pointer cast/mutable anywhere in /repo/src; it is "
+    "an AST pattern match (tools/gen/WriteSets.py), not a semantics of C++: writes through aliases or shapes the matcher does "
+    "not understand make the translator fail (TranslateError = broken tie), they are not proved absent",
+    "the user's callback is user code: what it does to the circuit (the setters refuse while isInUse_ is set — C10) is outside the table",
+    "DetailedPlacer::place with a callback that throws at invocation 0 (inside DetailedPlacer::legalize) and stages whose twin "
+    "throws (infeasible legalization) are not tied to the model (counted stage:twin_*); the snapshot oracle covers them",
+    "the float/double arithmetic of GlobalPlacer::exportPlacement is modelled exactly over Rat (blend: every binary32 operation "
+    "rounded to nearest-even; export: exact subtraction, round half away); cases where the double subtraction x - 0.5*w "
+    "is inexact would be skipped from the correspondence (counted twin_G_inexact / blend_inexact_subtraction; none occurs in the "
+    "quick tier), never from the oracle",
     "runs that end by assert/sanitizer abort (neither return nor throw) are outside the statement; they are counted "
     "(skipped_child_*) and belong to C07",
 ]
 ASSUMPTIONS = [
     "C++ int modelled as unbounded Int; std::round modelled as round-half-away-from-zero on the exact value",
     "out-of-range vector indices in the export functions (UB, asserted against in the default build) read a default in the model",
-    "isInUse_, hasCellSizeUpdate_, hasNetUpdate_ are bookkeeping flags outside the statement (not compared)",
+    "hasCellSizeUpdate_, hasNetUpdate_ are bookkeeping flags outside the statement (not compared); isInUse_ is written only by "
+    "the scoped InUseGuard of the three wrappers (table + guarded_call_frame: cleared on every exit)",
+    "binary32 blend: x86-64/SSE float evaluation (FLT_EVAL_METHOD 0), no FMA contraction in the build; values finite and below 2^128",
 ]
 LEVEL_TEXT = ("Lean 4 theorems: for any vectors handed to GlobalPlacer/Legalizer/DetailedPlacement::exportPlacement "
-              "(including the legalizer's throwing path) and any sequence of such exports, the circuit keeps every field "
-              "except x/y(/orientation) of non-fixed cells, and global exports keep all orientations; a decide-checked "
-              "table, regenerated from the clang AST on every run, shows every Circuit write in src/place_global and "
-              "src/place_detailed is one of those guarded writes or a bookkeeping flag.  The export models are tied to "
-              "the C++ by a differential stream (direct calls and whole stages); a before/after snapshot of every public "
-              "getter around every stage, composition, callback and exception is the direct oracle")
+              "(including the legalizer's throwing path and the blended final export of global placement for any weight), for "
+              "GlobalPlacer::place and DetailedPlacer::place as wholes with or without callback (any number of exposed placements, any "
+              "prefix = exception) and for any sequence of such exports under the InUseGuard wrapper, the circuit keeps every field "
+              "except x/y(/orientation) of non-fixed cells, global exports keep all orientations, and isInUse_ is cleared on every exit; a "
+              "decide-checked table, regenerated from the clang AST on every run, lists (file, function, line, member, kind, fixed-cell "
+              "guard) every Circuit write in src/place_global, src/place_detailed and the placement entry points of src/coloquinte.{hpp,cpp}: "
+              "each is one of those guarded element writes, a bookkeeping flag or the scoped isInUse_ guard, every hand-over of a "
+              "non-const Circuit stays inside the analysed set, and /repo/src contains no construct that removes const.  The export models "
+              "are tied to the C++ by a differential stream (direct calls; whole stages including every callback invocation and runs cut by a "
+              "throwing callback; blendPlacement bit-exact in binary32); a before/after snapshot of every public getter around every stage, "
+              "composition, callback and exception is the direct oracle")
 LEVEL_NOTE = ("Trusted: Lean kernel; the AST pattern matcher tools/gen/WriteSets.py; the differential tie of the export "
-              "models (bounded by the generator); exact-Rat reading of the float export.")
-TECHNIQUE = "Lean 4 proof (frame preorder + loop invariants) + translated write-set table + correspondence stream + snapshot oracle"
+              "models (bounded by the generator); exact-Rat reading of the float export and the binary32 rounding model.")
+TECHNIQUE = "Lean 4 proof (frame preorder + loop invariants, stage bodies as export sequences) + translated write-set/hand-over/const-escape tables + correspondence stream (exports, callbacks, binary32 blend) + snapshot oracle"
